@@ -305,10 +305,141 @@ def multi_fault_cases(draw, specs: st.SearchStrategy[t.Any]) -> t.Any:
     return [spec, v, 'mutated']
 
 
+# ---- the key-naming relation of the tree is the one conversion uses --------------------------------------------------
+#
+# Whether the python field name is accepted as an input key when other input names are configured is an unspecified cell:
+# the main suite skips such inputs.  This suite resolves the cell by observation instead of by assumption: it asks the
+# *fast path* (a fully valid mapping with the field supplied under its python name) whether pane treats that key as
+# naming the field, and then requires the diagnostic tree of a failing sibling input to describe the same relation -
+# a field conversion counts as supplied is not "missing", a key conversion ignores is not a field.
+
+@st.composite
+def naming_cases(draw, specs: st.SearchStrategy[t.Any]) -> t.Any:
+    spec = draw(specs)
+    nd = tg.node(spec)
+    base = draw(nd._valid_mapping())
+    pick = draw(st.integers(0, 7))
+    fault = draw(st.sampled_from(['sibling', 'extra', 'sibling', 'dropreq', 'dup']))
+    bad = draw(gen.WRONG_KIND)
+    return [spec, base, 'naming', pick, fault, bad]
+
+
+def _force_rename(sp: t.Any) -> t.Any:
+    """Give a class without any renamed field one (field-level rename of its first init field), so three quarters of the cases are not idle."""
+    nd = tg.node(sp)
+    if any(f.init and f.name not in f.in_names for f in nd.fields):
+        return sp
+    cs = dict(sp[1])
+    fields = [dict(f) for f in cs['fields']]
+    for f in fields:
+        if f.get('init', True) and 'naming' not in f:
+            f['naming'] = ['rename', 'forcedAlias']
+            break
+    cs['fields'] = fields
+    return (sp[0], cs)
+
+
+def _renamed_class_specs() -> st.SearchStrategy[t.Any]:
+    ftypes = tg.type_specs(2)
+    return cg.class_specs(ftypes).map(_force_rename).filter(lambda sp: 'struct' in tg.node(sp).in_format)
+
+
+def check_naming(case: t.Any, ctx: Ctx) -> None:
+    import pane
+    from pane.errors import ProductErrorNode
+    from ..oracles import outcome
+    (spec, base, _, pick, fault, bad) = case
+    nd = tg.node(spec)
+    cand = [f for f in nd.fields if f.init and f.name not in f.in_names]
+    if not cand:
+        ctx.label('no-renamed-field')
+        return
+    f = cand[pick % len(cand)]
+    key = next((k for k in base if isinstance(k, str) and k in nd.by_key and nd.by_key[k][0] is f and nd.by_key[k][1]), None)
+    if key is None:
+        ctx.label('field-omitted')
+        return
+    T = nd.pytype()
+    (k0, r0) = outcome(lambda: pane.from_data(base, T))
+    if k0 != 'ok':
+        ctx.exclude('the base mapping is not accepted (tricky leaf or post-init refusal)')
+        return
+    probe = {(f.name if k == key else k): x for (k, x) in base.items()}
+    (k1, r1) = outcome(lambda: pane.from_data(probe, T))
+    if k1 == 'exc':
+        ctx.exclude('another exception escaped (C04)')
+        return
+    names_field = k1 == 'ok'
+    if names_field and same(getattr(r1, f.name, None), getattr(r0, f.name, None)) is not None:
+        ctx.exclude('python name accepted but with another meaning')
+        return
+    v = dict(probe)
+    others = [k for k in v if k != f.name]
+    if fault == 'sibling' and others:
+        k = others[pick % len(others)]
+        g = nd.by_key[k][0]
+        try:
+            if own_tree(g.node, bad) is None:
+                fault = 'extra'
+            else:
+                v[k] = bad
+        except Exception:
+            fault = 'extra'
+    elif fault == 'dropreq':
+        req = [k for k in others if not nd.by_key[k][0].has_default()]
+        if req:
+            del v[req[pick % len(req)]]
+        else:
+            fault = 'extra'
+    elif fault == 'dup':
+        alt = [n for n in f.in_names]
+        v[alt[pick % len(alt)]] = base[key]
+    elif fault == 'sibling':
+        fault = 'extra'
+    if fault == 'extra':
+        if nd.allow_extra:
+            ctx.label('no-fault-possible')
+            return
+        v['zz_unknown_key'] = 0
+    try:
+        tr = own_tree(nd, v)
+    except Exception:
+        ctx.exclude('another exception escaped (C04)')
+        return
+    ctx.label(f"fault:{fault}", 'python-name-names-field' if names_field else 'python-name-ignored')
+    if tr is None:
+        if fault == 'dup' and not names_field:
+            ctx.nontrivial(True)
+            return
+        ctx.fail('naming-relation', 'accepted', f"T = {nd.render()[:300]}; {short(v, 200)} should be refused ({fault}) but was accepted")
+        return
+    ctx.nontrivial(True)
+    where = f"T = {nd.render()[:300]}; v = {short(v, 200)}; fast path on {short(probe, 120)}: {'accepted' if names_field else 'refused'}"
+    if not isinstance(tr, ProductErrorNode):
+        ctx.fail('naming-relation', 'not-a-product', f"{where}; tree is {type(tr).__name__}: {short(tr, 200)}")
+        return
+    if names_field:
+        if f.name in tr.missing:
+            ctx.fail('naming-relation', 'supplied-field-missing', f"{where}; conversion takes key {f.name!r} as the field, the tree lists it as missing: {short(tr, 200)}")
+        elif f.name in tr.extra:
+            ctx.fail('naming-relation', 'supplied-field-extra', f"{where}; conversion takes key {f.name!r} as the field, the tree lists it as an unknown key: {short(tr, 200)}")
+        elif fault == 'dup':
+            from pane.errors import DuplicateKeyError
+            if not any(isinstance(c, DuplicateKeyError) for c in tr.children.values()):
+                ctx.fail('naming-relation', 'duplicate-not-reported', f"{where}; field given twice, no duplicate-key child: {short(tr, 200)}")
+    else:
+        if fault != 'dup' and not f.has_default() and f.name not in tr.missing:
+            ctx.fail('naming-relation', 'ignored-key-not-missing', f"{where}; conversion ignores key {f.name!r}, so the field is absent, but it is not listed as missing: {short(tr, 200)}")
+        elif not nd.allow_extra and f.name not in tr.extra:
+            ctx.fail('naming-relation', 'ignored-key-not-extra', f"{where}; conversion ignores key {f.name!r} but the tree does not list it as unknown: {short(tr, 200)}")
+
+
 def suites(tier: str) -> t.List[Suite]:
     big = tier == 'thorough'
     leaves = 8 if big else 4
     return [
         Suite('trees', check, strategy=lambda: multi_fault_cases(gen.all_type_specs(leaves)), examples=8000 if big else 600,
               budget_s=480 if big else 40, render=gen.render_case),
+        Suite('python-names', check_naming, strategy=lambda: naming_cases(_renamed_class_specs()), examples=3000 if big else 300,
+              budget_s=240 if big else 25, render=gen.render_case),
     ]
